@@ -246,4 +246,12 @@ func (v MView) String() string {
 	return s
 }
 
-func (m *multi) dump() string { return m.observe().String() }
+func (m *multi) dump() string {
+	v := m.observe()
+	if m.live {
+		for j := range v.H {
+			v.H[j].Rows, _ = pendingRows(v.H[j].Rows, v.H[j].Dst)
+		}
+	}
+	return v.String()
+}
